@@ -8,7 +8,9 @@ def run():
     return macfam.run(PID, [f"hist={40 if t else 4}", f"steps={70 if t else 45}", "profile=cmds"],
         'MAC command answer and effect disagree (or order/multiplicity/stickiness wrong)',
         'seeded random histories where nearly every uplink is answered by an authentic Class A downlink carrying a MAC-command stream (LinkADRReq blocks of 1..n with DR/TXPower/ChMaskCntl/mask drawn from boundary+random values, RXParamSetupReq, RXTimingSetupReq, NewChannelReq, DlChannelReq, DevStatusReq, ignored and malformed commands) in FOpts or port 0; answers in the next uplinks and the snapshot after every downlink are compared',
-        macfam.COMMON_ASSUMPTIONS)
+        macfam.COMMON_ASSUMPTIONS,
+        mc=([("MCMacCmd.tla", "MCMacCmd.cfg", {"workers": 12, "timeout": 3000}), ("MCMacCmd.tla", "MCMacCmdUS.cfg", {"workers": 12, "timeout": 3000})] if t
+            else [("MCMacCmd.tla", "MCMacCmd1.cfg", {"workers": 8})]))
 
 
 def replay(path):
